@@ -137,14 +137,16 @@ def indented_code(draw, feat):
 @st.composite
 def table(draw, feat):
     n = draw(st.integers(1, 4))
-    cell = st.one_of(st.sampled_from(["a", "b c", "`c|d`", "x \\| y", "**b**", "", "1.", "-", "[l](u)", "it's", "\"q\"", "...", "{% t %}", "<b>"]), phrase(feat, 1, 3))
+    cell = st.one_of(st.sampled_from(["a", "b c", "x \\| y", "**b**", "", "1.", "-", "[l](u)", "it's", "\"q\"", "...", "`code`"] + (["{% t %}", "<b>"] if "tags" in feat else []) + (["`c|d`"] if "table_pipe_in_code" in feat else [])), phrase(feat, 1, 3))
     def row(cells): return "| " + " | ".join(cells) + " |"
     head = draw(st.lists(cell.filter(lambda c: c != ""), min_size=n, max_size=n))
     delim = draw(st.lists(st.sampled_from(["---", ":--", "--:", ":-:", "-", ":---------:"]), min_size=n, max_size=n))
     rows = draw(st.lists(st.lists(cell, min_size=n, max_size=n), min_size=0, max_size=3))
     style = draw(st.integers(0, 2))
     lines = [row(head), row(delim)] + [row(r) for r in rows]
-    if style == 1 and n > 1: lines = [l[2:-2] for l in lines]
+    from vf.layout import _BLOCK_START
+    starts_block = any(_BLOCK_START.match((r[0].split() or [""])[0]) for r in [head] + rows if r and r[0])
+    if style == 1 and n > 1 and not starts_block: lines = [l[2:-2] for l in lines]
     return lines
 
 def restrict(feat, ctx):
@@ -181,6 +183,10 @@ def blocks(draw, feat, depth, lo=1, hi=4, ctx=()):
         b = draw(block_(feat, depth, ctx))
         if out:
             tight_join = "tightjoin" in feat and draw(st.integers(0, 5)) == 0
+            if (len(b) == 1 and b[0].lstrip().startswith(("{%", "{#", "<!--"))) or (out and out[-1].lstrip().startswith(("{%", "{#", "<!--"))):
+                tight_join = False  # tag lines stand between blank lines (the documented way to use them)
+            if "refdef_tightjoin" not in feat and out and _re.match(r"^\s*\[[^\]]+\]:", out[-1]):
+                tight_join = False  # text directly after a link definition: recorded known finding (title capture)
             if not tight_join: out.append("")
             if "blanklines" in feat and draw(st.integers(0, 6)) == 0: out.append("")
         out += b
@@ -203,13 +209,15 @@ def list_block(draw, feat, depth, ctx=()):
         pad = draw(st.sampled_from([1, 1, 1, 2, 3])) if "listpad" in feat else 1
         first = marker + " " * pad
         rest = " " * len(first)
+        is_para = True
         if depth > 0 and draw(st.integers(0, 2)) == 0:
             body = draw(blocks(feat, depth - 1, 1, 3, ctx + ('list',)))
+            is_para = False
         else:
             body = draw(para_lines(feat, 1, 20))
         if task and body and body[0][:1] not in "`~#>|-*+=_[ \t" and not body[0][:1].isdigit():
             body[0] = draw(st.sampled_from(["[ ] ", "[x] ", "[X] "])) + body[0]
-        if "lazy" in feat and draw(st.integers(0, 4)) == 0: rest_i = ""
+        if "lazy" in feat and is_para and draw(st.integers(0, 4)) == 0: rest_i = ""
         else: rest_i = rest
         item = indent(body, first, rest)
         if rest_i == "":  # lazy continuation only for paragraph continuation lines of a single paragraph body
@@ -258,5 +266,5 @@ def doc(feat, depth=2, hi=5):
 
 ALL = frozenset(["haz_" + k for k in HAZ] + ["cjk", "emph", "strike", "code", "link", "reflink", "autolink", "html", "tags", "escape", "fnref", "entity",
                  "hardbreak", "spaces", "code_fences_inside", "atx", "setext", "fenced", "indcode", "table", "hr", "refdef", "tagline", "tightjoin", "blanklines",
-                 "list", "olist", "olist_paren", "escape_tick", "sent_end_in_atom", "code_taglike", "fn_nonpara_first", "task", "listpad", "lazy", "quote", "alert", "footnote"])
+                 "list", "olist", "olist_paren", "escape_tick", "sent_end_in_atom", "code_taglike", "fn_nonpara_first", "table_pipe_in_code", "refdef_tightjoin", "task", "listpad", "lazy", "quote", "alert", "footnote"])
 BASIC = frozenset(["emph", "code", "link", "atx", "fenced", "list", "olist", "quote", "hr", "table"])
